@@ -5,6 +5,7 @@
 #include <yaclib/util/intrusive_ptr.hpp>
 
 #include <cstddef>
+#include <type_traits>
 
 namespace yaclib {
 namespace detail {
@@ -23,7 +24,12 @@ class Helper final : public Counter<ObjectT, DefaultDeleter> {
   }
 
   std::size_t GetRef() noexcept final {
-    return this->Get();
+    if constexpr (std::is_same_v<Counter<ObjectT, DefaultDeleter>, AtomicCounter<ObjectT, DefaultDeleter>>) {
+      // The result decides ownership (e.g. moving a shared value out when we are the last holder)
+      return this->Get(std::memory_order_acquire);
+    } else {
+      return this->Get();
+    }
   }
 };
 
